@@ -131,7 +131,8 @@ def check_cg(case):
     # Cauchy step along -P g inside the region (configured norm)
     d = -P @ g
     dHd = float(d @ H @ d)
-    dn = nrm(d)
+    # |d|_M^2 = d^T P^-1 d = g^T P g for d = -P g: no inverse of the (possibly ill-conditioned) preconditioner involved
+    dn = math.sqrt(max(float(g @ P @ g), 0.0)) if case['precnorm'] else nrm(d)
     tmax = Delta / dn
     tstar = tmax if dHd <= 0 else min(tmax, float(-(g @ d)) / dHd)
     zc = tstar * d
@@ -139,7 +140,10 @@ def check_cg(case):
     mz = model(z)
     # the radius of the reference Cauchy step is measured with M = inv(P): its relative accuracy is eps * cond(P)
     slack = 1e-9 + (100 * EPS * float(onp.linalg.cond(P)) if case['precnorm'] else 0.0)
-    if mz > min(0.0, mc) + slack * (abs(float(g @ zc)) + 0.5 * abs(float(zc @ H @ zc))) + 1e-13 * abs(mc):
+    # rounding of the model evaluation itself: |g|.|v| + |v|^T |H| |v| / 2 can exceed |m(v)| by many orders when v has a large
+    # component along a (near-)null direction of H
+    rnd = lambda v: 8 * n * EPS * (float(onp.abs(g) @ onp.abs(v)) + 0.5 * float(onp.abs(v) @ onp.abs(H) @ onp.abs(v)))
+    if mz > min(0.0, mc) + slack * (abs(float(g @ zc)) + 0.5 * abs(float(zc @ H @ zc))) + 1e-13 * abs(mc) + rnd(z) + rnd(zc):
         fails.append(Failure('cauchy-decrease', 'model value %.9g at the step, %.9g at the Cauchy step (type %s, %d iterations)' % (mz, mc, stype, iters), **data))
     if stype in (ES.boundaryString, ES.negCurveString):
         if abs(zn - Delta) > 1e-5 * Delta:
